@@ -81,8 +81,17 @@ def write_if_changed(path, content):
 
 
 def known_findings():
+    """known_findings.json (the committed known-findings file) plus per-property staging files
+    known_findings.d/*.json (merged into the main file before committing)."""
     with open(os.path.join(VERIF, "known_findings.json")) as f:
-        return json.load(f)
+        out = list(json.load(f))
+    d = os.path.join(VERIF, "known_findings.d")
+    if os.path.isdir(d):
+        for fn in sorted(os.listdir(d)):
+            if fn.endswith(".json"):
+                with open(os.path.join(d, fn)) as f:
+                    out.extend(json.load(f))
+    return out
 
 
 class Result:
